@@ -542,11 +542,16 @@ func parseHeap(b []byte) (p *Profile, err error) {
 			sloc = append(sloc, loc)
 		}
 
-		p.Sample = append(p.Sample, &Sample{
+		sample := &Sample{
 			Value:    value,
 			Location: sloc,
-			NumLabel: map[string][]int64{"bytes": {blocksize}},
-		})
+		}
+		// A zero label value without unit cannot be represented in
+		// profile.proto and would be lost by the first Write or Copy.
+		if blocksize != 0 {
+			sample.NumLabel = map[string][]int64{"bytes": {blocksize}}
+		}
+		p.Sample = append(p.Sample, sample)
 	}
 	if err := s.Err(); err != nil {
 		return nil, err
